@@ -30,7 +30,8 @@ func init() {
 		Pkgs:      kvsPkgs,
 		Run:       runC03,
 		Technique: "static analysis: sibling agreement of the two kvs.Storage implementations on the error class returned on each deciding edge, field-coverage agreement of the record codec, constant agreement of the key prefix, command-order rule for batches, forward/backward dataflow of the storage key through the key mapping (injectivity), guard dominance on list lengths, ownership (copy-on-store / copy-on-read) census of the in-memory record table, path queries requiring the expiry decision behind every table lookup and range (in-memory), per-path must-pass-through of the write command on the success exits of the redis write operations, backward slice of the redis TTL to its clock readings with path queries for waits and loops between reading and command, invocation summaries of functions that are handed the issuing literal (go/ssa)",
-		Explanation: "R1: on the deciding edges both backends return the class the contract names: Create present->ErrExist; Get/Delete/CasByVersion missing->ErrNotExist; CasByVersion stored!=expected->ErrConflict (redis: the nil reply is mapped to ErrNotExist by the error mapping, which every read path goes through). " +
+		Explanation: "R23 (session 4): the in-memory ListKeys reports success only behind a complete walk over the record table (exhaustion edge of the range, or len(table)==0 known): only the compiled glob decides which keys a pattern denotes. " +
+			"R1: on the deciding edges both backends return the class the contract names: Create present->ErrExist; Get/Delete/CasByVersion missing->ErrNotExist; CasByVersion stored!=expected->ErrConflict (redis: the nil reply is mapped to ErrNotExist by the error mapping, which every read path goes through). " +
 			"R2: ErrExist is returned together with the version of the stored record. " +
 			"R3: the record<->proto codec reads and writes every field of kvs.Record. R4: the key prefix added by the mapping has the length its inverse strips; ListKeys maps the pattern and un-maps results. " +
 			"R5: one PutMany is written by a single strategy (one MSET, or record by record front to back), never both. " +
@@ -57,7 +58,8 @@ func init() {
 		Pkgs:      kvsPkgs,
 		Run:       runC07,
 		Technique: "static analysis: must-pass-through path queries (notify after every mutation), critical-section continuity between check and registration, must-lockset, guard dominance of every result value (go/ssa)",
-		Explanation: "W1: after every overwrite or delete of a record every path to the unlock passes the notify routine with the same key (the insert of an absent key is exempt: no waiter can be registered for an absent key). " +
+		Explanation: "W14 (session 4): context.Canceled / context.DeadlineExceeded are returned by a waiter (or a ctx-taking helper it reaches) only where the context was seen done (select case on ctx.Done(), ctx.Err()!=nil or ==sentinel): a predicted deadline is not a done context. " +
+			"W1: after every overwrite or delete of a record every path to the unlock passes the notify routine with the same key (the insert of an absent key is exempt: no waiter can be registered for an absent key). " +
 			"W2: the version check and the registration of the waiter are one critical section on data looked up in it. W3: the waiter parks with the mutex released on the channel of its entry. " +
 			"W4: a cancelling waiter decrements under the mutex and tears the entry down only as last waiter and only if the entry registered now is still the one it registered on. " +
 			"W5: nil is returned only on the version-differs edge, ErrNotExist only on the absent edge, ctx.Err() only in the ctx.Done() case (both backends). W6: the notify routine closes the channel and forgets the entry together. W9: a waiter that goes around its loop registers again only after its previous registration was withdrawn (count decremented under the identity test) or consumed by a notification / removal of the entry. V1: every write stores a freshly generated version in both backends (the rules of C02.R2: a write under the old version is a change no waiter can see). W5 also: the redis waiter decides 'changed' on a record its poll read without error on this very iteration. W10: every acquisition of the service mutex is released on every path to a return - a waiter that gives up (or any operation) and leaves with the mutex held blocks every writer and every other waiter for ever. W11: the waiter decides 'expired' against a clock reading taken after it was woken (the rule of C06.R10: with a moment read before the park the expired record looks alive, the waiter re-registers and spins instead of returning ErrNotExist)." +
